@@ -51,7 +51,48 @@ def ev(e, r, b):
     raise Unknown()
 
 
-def holds(e, p, r, b):
+FACTS = [None]
+_HELPER_PATHS = {}
+
+
+def _helper_can_return(g, want, r, b, depth=0):
+    """Can the boolean helper `g` (same crate, loop-free) return `want` for this (radix, base)?  Its paths are
+    enumerated once; a path counts if none of its atoms over the radix getters is false (atoms about anything else
+    are ignored, as everywhere in this module) and its result evaluates to `want` (or cannot be evaluated)."""
+    from rules.core import resolve_env
+    if g.dp not in _HELPER_PATHS:
+        rets = {i for i, bl in enumerate(g.blocks) if g.live(i) and bl["t"]["k"] == "return"}
+        ps = []
+        try:
+            for t, atoms, env in enum_paths(g, 0, rets, want_env=True, resolve_atoms=True):
+                rv = env.get(0)
+                res = None if rv is None else (("k", rv[1]) if rv[0] == "const" else simplify_proj(resolve_env(rv[1], env)))
+                ps.append((atoms, res))
+        except Exception:
+            ps = None
+        _HELPER_PATHS[g.dp] = ps
+    ps = _HELPER_PATHS[g.dp]
+    if ps is None:
+        return True
+    for atoms, res in ps:
+        if not all(holds(e, p, r, b, depth + 1) for e, p in atoms):
+            continue
+        if res is None:
+            return True
+        try:
+            if bool(ev(res, r, b)) == want:
+                return True
+        except Unknown:
+            return True
+    return False
+
+
+def holds(e, p, r, b, depth=0):
+    e0 = strip_casts(simplify_proj(e))
+    if isinstance(p, bool) and e0[0] == "call" and FACTS[0] is not None and depth < 3:
+        gs = [g for g in FACTS[0].by_short.get(e0[1], []) if g.crate in ("lexical_parse_float", "lexical_write_float") and g.kind != "Closure"]
+        if len(gs) == 1 and str(gs[0].mir.get("locals", ["?"])[0]) == "bool":
+            return _helper_can_return(gs[0], p, r, b, depth)
     try:
         v = ev(simplify_proj(e), r, b)
     except Unknown:
@@ -122,6 +163,18 @@ def rule_dispatch_table(col, facts):
     col.floor(R, "(radix, base) x dispatcher entries", n, 3)
 
 
+def admitted_mixed_pairs(facts, f, name):
+    """The (radix, base) pairs with radix != base for which some path of entry point `f` reaches the back-end call
+    parse::<name> (evaluated, helpers followed)."""
+    FACTS[0] = facts
+    _HELPER_PATHS.clear()
+    tg = {bb for bb, c, a, d, t in f.calls() if callee_name(c) == PF + "parse::" + name}
+    if len(tg) != 1:
+        return set()
+    paths = enum_paths(f, 0, tg)
+    return {(r, b) for r in range(2, 37) for b in range(2, 37) if r != b and any(all(holds(e, p, r, b) for e, p in atoms) for t, atoms in paths)}
+
+
 def rule_check_radix_table(col, facts):
     """KEY-radix-pairs: the parse entry points (ParseFloat::parse_complete / parse_partial / fast_path_*) let a
     format through to the back-ends only if its exponent base equals its mantissa radix, or the pair is one of the
@@ -132,6 +185,8 @@ def rule_check_radix_table(col, facts):
     if "power-of-two" not in facts.config and "radix" not in facts.config:
         return
     R = "KEY-radix-pairs"
+    FACTS[0] = facts
+    _HELPER_PATHS.clear()
     mixed = {(4, 2), (8, 2), (16, 2), (32, 2), (16, 4)}
     n = 0
     for name in ("parse_complete", "parse_partial", "fast_path_complete", "fast_path_partial"):
